@@ -95,3 +95,27 @@ CHECKS["C04"] = dict(
         level_note="Trusts the snapshot code's reading of the private structures and ASan for the memory side of dangling references.",
     ),
 )
+
+CHECKS["C05"] = dict(
+    harnesses={"pbt": dict(src="c05_hold.cpp", cfg="asan", kind="rc")},
+    quick=[dict(name="pbt", harness="pbt", workers=8, args=["--n", "2500", "--maxlen", "80"])],
+    thorough=[dict(name="pbt", harness="pbt", workers=16, args=["--n", "60000", "--maxlen", "150"], timeout=7200)],
+    rule="rapidcheck histories of note on (incl. velocity 0, blank programs) / off, CC64/66/120/121/123, panic, reset-state, program change and "
+         "time advance on two melodic channels and the percussion channel, 1-2 chips; the generated list is sanitised by construction so that occupied chip "
+         "channels never exceed channels-1; after EVERY call the set of (channel,key) pairs owning a keyed-on chip channel must EQUAL the reference model's set, "
+         "note-on return values must match, and after a final release-everything + 95 ms no channel may be keyed on. "
+         "Non-trivial = a note outlived its key through pedal/sostenuto or a drum release was deferred; distinct by FNV-64 of the sanitised history.",
+    assumptions=[
+        "polyphony precondition of the property: generated note-ons that would occupy more than channels-1 chip channels are dropped (each re-strike under a pedal occupies one more channel)",
+        "CC66>=64 is sent only while sostenuto is off; reset-state only while no key is down (the statement does not say what either does otherwise)",
+        "time advances are 7/11/40/100 ms so no percussion release falls exactly on the 30 ms boundary",
+        "a deferred percussion release is an ordinary key-up at note-on + 30 ms (pedal rules apply at that moment)",
+    ],
+    min_nontrivial={"quick": 500, "thorough": 5000},
+    manifest=dict(
+        technique="model-based property testing: reference model of MIDI hold rules vs tap-observed keyed-on (channel,key) set after every call",
+        level_text="A reference model written from the property text predicts the exact set of sounding (channel,key) pairs; the implementation's set is read "
+                   "from the chip key state (register tap) joined with the chip-channel user lists and compared for equality after every generated call.",
+        level_note="Trusts the tap-based key-state reconstruction and the reading of user lists; exactness relies on the stated generator preconditions.",
+    ),
+)
